@@ -17,7 +17,8 @@ LEVEL = "model_checking"
 TECHNIQUE = "explicit-state BFS over event histories on the real HTTPChannel, h11 as wire oracle"
 RULE = ("BFS over histories of deliver-next-segment / write(k) / notifyFinish(k) / finish(k) / transport pause / "
         "resume / connectionLost / finish-after-loss on a real HTTPChannel for every configuration (request kinds "
-        "GET, POST+Content-Length, POST chunked, final 'Connection: close' or HTTP/1.0; answer inside process() or "
+        "GET, POST+Content-Length, POST chunked, POST + extraneous CRLF, Expect: 100-continue, final 'Connection: "
+        "close' or HTTP/1.0; answer inside process() or "
         "later; segmentation whole / per request / mid-header / 2 bytes before each request end; eager-read limit "
         "default or 8 bytes). In every state: at most one request in progress and handed in arrival order with its "
         "own body, the wire parses (h11) as the complete responses of the finished requests in order plus at most a "
@@ -32,13 +33,17 @@ ASSUMPTIONS = [
     "canonical state = configuration + harness bookkeeping + wire bytes + the channel's buffering/flow-control "
     "attributes (read defensively, used only to merge states, never for the verdict)",
 ]
-MIN = {"quick": {"states": 70000, "transitions": 100000, "nontrivial": 65000, "outcomes": 5}}
+MIN = {"quick": {"states": 85000, "transitions": 120000, "nontrivial": 78000, "outcomes": 5}}
 
 KINDS = {
     # kind -> (method, request bytes for path /i, expected body)
     "G": ("GET", lambda i: b"GET /%d HTTP/1.1\r\nHost: x\r\n\r\n" % i, b""),
     "P": ("POST", lambda i: b"POST /%d HTTP/1.1\r\nHost: x\r\nContent-Length: 3\r\n\r\nabc" % i, b"abc"),
     "C": ("POST", lambda i: b"POST /%d HTTP/1.1\r\nHost: x\r\nTransfer-Encoding: chunked\r\n\r\n2\r\nab\r\n1\r\nc\r\n0\r\n\r\n" % i, b"abc"),
+    # E: POST followed by the extraneous empty line some clients send (eaten once per request)
+    "E": ("POST", lambda i: b"POST /%d HTTP/1.1\r\nHost: x\r\nContent-Length: 3\r\n\r\nabc\r\n" % i, b"abc"),
+    # T: Expect: 100-continue (the channel writes the interim response itself when the headers are in)
+    "T": ("POST", lambda i: b"POST /%d HTTP/1.1\r\nHost: x\r\nExpect: 100-continue\r\nContent-Length: 3\r\n\r\nabc" % i, b"abc"),
     "X": ("GET", lambda i: b"GET /%d HTTP/1.1\r\nHost: x\r\nConnection: close\r\n\r\n" % i, b""),
     "O": ("GET", lambda i: b"GET /%d HTTP/1.0\r\n\r\n" % i, b""),
 }
@@ -49,19 +54,19 @@ def configs(tier):
     """(kinds, now-flags, seg, eager)"""
     out = []
     seqs = []
-    mid = "GPC"
-    last = "GPCXO"
+    mid = "GPCET"
+    last = "GPCTXO"
     for a in last:
         seqs.append(a)
     for a in mid:
-        for b in last:
+        for b in (last if tier != "quick" else "GCTXO"):
             seqs.append(a + b)
     if tier == "quick":
-        seqs += ["GGG", "GPG", "PGX", "GPC", "PPG", "CGX"]
+        seqs += ["GGG", "GPG", "PGX", "GEC", "TPG", "CGX"]
     else:
-        for a in mid:
-            for b in mid:
-                for c in last:
+        for a in "GPE":
+            for b in "GPE":
+                for c in "GCTX":
                     seqs.append(a + b + c)
     for kinds in seqs:
         n = len(kinds)
@@ -75,7 +80,7 @@ def configs(tier):
                 for eager in (None, 8):
                     if eager == 8 and seg == "whole" and n == 1:
                         continue
-                    if tier == "quick" and eager == 8 and seg in ("whole", "near-end"):
+                    if tier == "quick" and eager == 8 and seg != "mid-header":
                         continue
                     out.append((kinds, now, seg, eager))
     return out
@@ -303,9 +308,12 @@ def invariant(st, hist):
                         % (complete, len(st.handed))))
     # ---- the wire
     data = st.t.value()
-    methods = [KINDS[st.kinds[r.order]][0] for r in st.handed]
+    # (the request after the handed ones may already have drawn its "100 Continue": the channel
+    # answers Expect when the headers are in, before the body is complete)
+    upto = min(len(st.handed) + (0 if inflight else 1), n)
+    methods = [KINDS[k][0] for k in st.kinds[:upto]]
     resps, left, err, ninfo = parse_responses(data, methods, False) if methods else ([], data, None, 0)
-    if err is not None or ninfo:
+    if err is not None or ninfo > st.kinds[:upto].count("T"):
         out.append(("responses-interleaved-or-corrupt", "h11: %s in %r" % (err, data[-200:])))
     else:
         if left:
